@@ -213,6 +213,34 @@ func scenario(group string, cs []wfCase, q, t vrt.Bounds) *vrt.Scenario {
 				if err == nil {
 					fail("critical-hook-task-failure-not-reported:"+momentName(failAt.m)+":"+strings.Join(as, "+"), "START succeeded")
 				}
+				if failAt.m < 2 && err != nil {
+					// "an error naming the failure": every critical hook that failed at the cancelling point is named
+					// (hook tasks by their class, calls by their function), or the error says how many failed.
+					// A hook task whose trigger command could not be delivered is reported as a failed command instead.
+					var want []string
+					named := 0
+					for i, h := range c.hooks {
+						if !h.crit || assign[i] == coresim.OK || assign[i] == coresim.Undeliverable || mIdx[h.moment] != failAt.m || h.weight != failAt.w {
+							continue
+						}
+						n := fmt.Sprintf("c09thook%d", i)
+						if h.call {
+							n = fmt.Sprintf("x%d", i)
+						}
+						want = append(want, n)
+						if strings.Contains(err.Error(), n) {
+							named++
+						}
+					}
+					for i, h := range c.hooks {
+						if !h.call && assign[i] == coresim.Undeliverable && mIdx[h.moment] == failAt.m && h.weight == failAt.w {
+							want = nil // the one trigger command of the slot failed: none of its hook tasks ran, the command error is what is reported
+						}
+					}
+					if named < len(want) && !(len(want) > 1 && strings.Contains(err.Error(), fmt.Sprintf("%d ", len(want)))) {
+						fail(fmt.Sprintf("error-does-not-name-the-failed-hook:%d-of-%d-named:%s", named, len(want), strings.Join(as, "+")), "failed critical hooks at the cancelling point: %v", want)
+					}
+				}
 				if failAt.m < 2 {
 					// cancelled before the task transition: no task command, destination never published
 					if startCmd >= 0 {
@@ -348,6 +376,6 @@ func main() {
 	vrt.Main([]*vrt.Scenario{
 		scenario("hooktask1", one, vrt.Bounds{Dev: 0, Seconds: 100}, vrt.Bounds{Dev: 1, Seconds: 500}),
 		scenario("hooktask2", two, vrt.Bounds{Dev: 0, Seconds: 100}, vrt.Bounds{Dev: 1, Seconds: 500}),
-		scenario("hooktask-mixed", mixed, vrt.Bounds{Dev: 0, Seconds: 100}, vrt.Bounds{Dev: 1, Seconds: 500}),
+		scenario("hooktask-mixed", mixed, vrt.Bounds{Dev: 0, Seconds: 100}, vrt.Bounds{Dev: 1, Seconds: 200}),
 	})
 }
